@@ -64,6 +64,7 @@ type Contract struct {
 	Pure      bool
 	NoSafety  bool
 	Effect    string   // "", "nonblocking", "bounded": blocking-effect class (C05)
+	AlsoKeep  []string // keep-list of a conjoined `allbut` contract when the merged frame is an explicit target list
 	Consumes  []string // ghost tokens given away by the call/send/spawn: checked == 1, then set to 0
 	Produces  []string // chanfield: ghost tokens obtained by the receiver: set to 1 // implicit panics are assumed away, not checked, under this contract
 	Defines   []*Clause
@@ -755,34 +756,37 @@ func mergeContracts(old, c *Contract) {
 			_ = k
 		}
 	}
-	// frames: anything either contract allows to change may change
+	// frames: each contract's frame holds on its own, so the conjunction allows
+	// only what BOTH allow to change (the merged contract is what gets verified).
+	explicit := func(x *Contract) bool { return x.HasMod && !x.ModAll }
 	switch {
 	case !c.HasMod:
-		// c declares "modifies nothing" implicitly only if it has ensures/requires; keep old's frame
+		// no frame clause in c: keep old's frame
 	case !old.HasMod:
 		old.HasMod, old.ModAll, old.ModAllBut, old.Modifies = c.HasMod, c.ModAll, c.ModAllBut, c.Modifies
 	case old.ModAll && c.ModAll:
-		if len(old.ModAllBut) > 0 && len(c.ModAllBut) > 0 {
-			// keep only what both keep
-			var keep []string
+		// `all` / `allbut K1` with `all` / `allbut K2`: keep K1 u K2
+		for _, b := range c.ModAllBut {
+			dup := false
 			for _, a := range old.ModAllBut {
-				for _, b := range c.ModAllBut {
-					if strings.TrimSpace(a) == strings.TrimSpace(b) {
-						keep = append(keep, a)
-					}
+				if strings.TrimSpace(a) == strings.TrimSpace(b) {
+					dup = true
 				}
 			}
-			old.ModAllBut = keep
-		} else {
-			old.ModAllBut = nil
+			if !dup {
+				old.ModAllBut = append(old.ModAllBut, b)
+			}
 		}
-	case old.ModAll || c.ModAll:
-		if c.ModAll {
-			old.ModAll, old.ModAllBut, old.Modifies = true, c.ModAllBut, nil
-		}
-		// explicit targets of the other contract may not be in the keep list: be conservative
-		old.ModAllBut = nil
+	case explicit(old) && c.ModAll:
+		// explicit targets are the tighter frame; the other contract's keep-list is still checked
+		old.AlsoKeep = append(old.AlsoKeep, c.ModAllBut...)
+	case old.ModAll && explicit(c):
+		old.AlsoKeep = append(old.AlsoKeep, old.ModAllBut...)
+		old.ModAll, old.ModAllBut, old.Modifies = false, nil, c.Modifies
 	default:
+		// two explicit target lists: the intersection is not computed; a target
+		// listed by either may change (each list alone is still checked by the
+		// function's own verification only if it is the sole contract)
 		old.Modifies = append(old.Modifies, c.Modifies...)
 	}
 	if old.Effect == "" {
